@@ -77,12 +77,23 @@ func c10Run(c c10Case) []*core.Violation {
 	if err != nil {
 		return []*core.Violation{core.V("parse-error", "parsing the rendering of a supported message failed: %v", err)}
 	}
-	var vs []*core.Violation
+	var vs, kv []*core.Violation
+	firstRoot := mimeread.Parse(first.Bytes())
+	subjectCollapsed := false
 	// --- getters of the parsed message vs. the model
 	if sv := parsed.GetGenHeader(mail.HeaderSubject); len(sv) != 1 {
 		vs = append(vs, core.V("subject", "parsed message has %d subject values", len(sv)))
-	} else if d, _ := mimeread.DecodeWords(sv[0]); oracle.NormWS(d) != oracle.NormWS(c.Subject) {
-		vs = append(vs, core.V("subject", "subject %q, expected %q", d, c.Subject))
+	} else if d, _ := mimeread.DecodeWords(sv[0]); c10ws(d) != c10ws(c.Subject) {
+		// Does the rendering carry the subject? If the independent reader unfolds it to the exact
+		// value, the loss happened in the parser (white space next to a fold is collapsed).
+		key := "subject"
+		if rs := firstRoot.All("Subject"); len(rs) == 1 && oracle.NormWS(d) == oracle.NormWS(c.Subject) {
+			if rd, _ := mimeread.DecodeWords(rs[0]); c10ws(rd) == c10ws(c.Subject) {
+				key = "parser-collapses-ws-at-fold"
+				subjectCollapsed = true
+			}
+		}
+		kv = append(kv, core.V(key, "subject %q, expected %q", d, c.Subject))
 	}
 	cmpBoxes := func(what string, got []*mailAddr, want []c10Box) {
 		if len(got) != len(want) {
@@ -90,8 +101,17 @@ func c10Run(c c10Case) []*core.Violation {
 			return
 		}
 		for i := range got {
-			if got[i].Address != want[i].Addr || oracle.NormWS(got[i].Name) != oracle.NormWS(want[i].Name) {
-				vs = append(vs, core.V("addresses", "%s[%d] is %q <%s>, expected %q <%s>", what, i, got[i].Name, got[i].Address, want[i].Name, want[i].Addr))
+			if got[i].Address != want[i].Addr || c10ws(got[i].Name) != c10ws(want[i].Name) {
+				key := "addresses"
+				if got[i].Address == want[i].Addr && oracle.NormWS(got[i].Name) == oracle.NormWS(want[i].Name) {
+					// same question as for the subject: what does the rendering say?
+					if rv := firstRoot.All(what); len(rv) == 1 {
+						if boxes, err := mimeread.ParseAddressList(rv[0]); err == nil && i < len(boxes) && boxes[i].Addr == want[i].Addr && c10ws(boxes[i].Name) == c10ws(want[i].Name) {
+							key = "parser-collapses-ws-at-fold"
+						}
+					}
+				}
+				kv = append(kv, core.V(key, "%s[%d] is %q <%s>, expected %q <%s>", what, i, got[i].Name, got[i].Address, want[i].Name, want[i].Addr))
 			}
 		}
 	}
@@ -164,9 +184,17 @@ func c10Run(c c10Case) []*core.Violation {
 	}
 	cmpFiles("embed", parsed.GetEmbeds(), wantEmb)
 	cmpFiles("attachment", parsed.GetAttachments(), wantAtt)
+	for _, v := range kv {
+		if v.Key != "parser-collapses-ws-at-fold" {
+			vs = append(vs, v)
+		}
+	}
 	if len(vs) > 0 {
 		return vs
 	}
+	// what follows is checked as well when the only difference so far is the parser's known collapsing
+	// of white space next to a fold
+	vs = kv
 	// --- re-render of the parsed message, read by the independent reader
 	var second bytes.Buffer
 	if _, err := parsed.WriteTo(&second); err != nil {
@@ -189,7 +217,7 @@ func c10Run(c c10Case) []*core.Violation {
 	}
 	vs = append(vs, oracle.CompareLeaves(root, want, len(spec.Parts), len(spec.Embeds), len(spec.Attachments), oracle.LeafOpts{NoDesc: true, NoFileCTE: true})...)
 	if sv := root.All("Subject"); len(sv) == 1 {
-		if d, _ := mimeread.DecodeWords(sv[0]); oracle.NormWS(d) != oracle.NormWS(c.Subject) {
+		if d, _ := mimeread.DecodeWords(sv[0]); c10ws(d) != c10ws(c.Subject) && !(subjectCollapsed && oracle.NormWS(d) == oracle.NormWS(c.Subject)) {
 			vs = append(vs, core.V("rerender-subject", "re-rendered subject %q, expected %q", d, c.Subject))
 		}
 	}
@@ -248,9 +276,12 @@ func legalText(b []byte, ascii bool) []byte {
 	return []byte(strings.Join(out, "\r\n"))
 }
 
-var c10Names = []string{"", "Alice Example", "Jörg Müller", "日本 太郎", "Name, With Comma", "quote \" inside", "Ünï cödé long display name that needs more than one encoded word to be represented"}
+var c10Names = []string{"", "Alice Example", "Jörg Müller", "日本 太郎", "Name, With Comma", "quote \" inside", "Doe,  Jane", "Two  Blanks", "Ünï cödé long display name that needs more than one encoded word to be represented"}
 var c10FileNames = []string{"file.txt", "report 2024.pdf", "übung.txt", "日本語のファイル.bin", "semi;colon.txt", "equals=sign.dat", "a b;c=d.txt", "noext", "ключ.key", "very long file name with many words that goes on and on to force several encoded words in the header.txt"}
-var c10Subjects = []string{"plain subject", "Grüße aus Köln", "日本語の件名", "emoji \U0001F600 subject", "a subject that is long enough to be folded over several lines because it has many many many words in it", "mixed ascii and ünïcödé words in one line that is quite long and will need folding and several encoded words", "x"}
+var c10Subjects = []string{"plain subject", "Invoice 0815  -  May", "Total:\t42 EUR", "three   blanks and a long tail that is long enough to be folded over several lines   because it has many words in it", "Grüße aus Köln", "日本語の件名", "emoji \U0001F600 subject", "a subject that is long enough to be folded over several lines because it has many many many words in it", "mixed ascii and ünïcödé words in one line that is quite long and will need folding and several encoded words", "x"}
+
+// c10ws: "the same subject" allows for nothing but white space at the two ends of the value.
+func c10ws(s string) string { return strings.Trim(s, " \t") }
 
 func c10Gen(t *rapid.T) c10Case {
 	o := gen.GenOpts{
